@@ -46,7 +46,10 @@ pub fn graph2j(g: &Graph) -> Value {
     let edges: Vec<Value> = ds
         .iter()
         .map(|d| {
-            let inc: Vec<Value> = g.edges[d]
+            // canonical form: the incoming edges sorted by origin (their order in the list is an implementation detail)
+            let mut es: Vec<_> = g.edges[d].iter().collect();
+            es.sort_by_key(|e| e.get_origin_id());
+            let inc: Vec<Value> = es
                 .iter()
                 .map(|e| json!({"o": clamp_i32(e.get_origin_id() as u128), "w": f2j(e.get_weight())}))
                 .collect();
